@@ -7,7 +7,8 @@
    json_.save_report_into_file                             json_save_file      (json.dumps never fails on str data: ensure_ascii)
    json_.load_report_from_file                             json_load_file      (prefix stripped, json.loads = json_norm, report_version checks)
    xml.save_report_into_file (indent, tostring, write)     xml_save_file       (TypeError while building the tree; UnicodeEncodeError
-                                                                                when the text holds a lone surrogate)
+                                                                                when the text holds a lone surrogate; backend.atomic_write
+                                                                                then removes its temporary file and re-raises)
    xml.load_report_from_file (ET.parse, root/version)      xml_load_file       (ParseError -> ReportLoadingError)
    loader.load_report_from_file(path, backends)            loader_load         (first backend that does not raise ReportLoadingError;
                                                                                 any other exception propagates; IOError not modelled)
